@@ -106,6 +106,13 @@ class F2m:
             a = self.sqr(a)
         return a
 
+    def htr(self, a):
+        """half-trace (odd m): a solution z of z^2 + z = a when Tr(a) = 0"""
+        t = a
+        for _ in range((self.m - 1) // 2):
+            t = self.sqr(self.sqr(t)) ^ a
+        return t
+
 
 class C2:
     """y^2 + xy = x^3 + A x^2 + B over GF(2^m), affine, textbook formulas"""
@@ -402,6 +409,22 @@ class Gen:
             if self.thorough or nc % 2 == 0:
                 tt = rng.choice(["N", "-", hx(self.rb(rng.choice([1, 16, 33])))])
                 add("b96.sign2 %s %s %s %s" % (hx(oid), hx(H), hx(n2b(d)), tt), kind="b96.sign2", d=d, Q=Q, H=H, oid=oid)
+        # constructed: H >= q, k fixed, d chosen so that c = k - (s0 + 2^103) d mod q is below H - q (the subtraction of the
+        # unreduced hash would borrow twice), and d with s1 = 0 / q - 1; s0 (depends on k, H, oid only) is learned with d = 1
+        cases = [(rng.randrange(1, q), n2b(W - 1)), (rng.randrange(1, q), n2b(rng.randrange(q + (1 << 20), W)))]
+        outs = self.run_c(["b96.sign %s %s %s %s" % (hx(OID_HBELT), hx(Hc), hx(n2b(1)), hx(n2b(k))) for k, Hc in cases])
+        for (k, Hc), o in zip(cases, outs):
+            w = o.split()
+            if w[0] != "0":
+                continue
+            u = (le(unh(w[1])[:10]) + (1 << 103)) % q
+            Hn = le(Hc)
+            for lab, c in [("borrow:c=0", 0), ("borrow:c=1", 1), ("borrow:c=H-q-1", Hn - q - 1), ("s1=0", (Hn - q) % q), ("s1=q-1", (Hn - q - 1) % q)]:
+                d = (k - c) * pow(u, -1, q) % q
+                if d:
+                    add("b96.sign %s %s %s %s" % (hx(OID_HBELT), hx(Hc), hx(n2b(d)), hx(n2b(k))), kind="b96.sign", d=d, Q=cv.pub(d), H=Hc,
+                        oid=OID_HBELT, tape=n2b(k))
+                    self.count("b96.sign:constructed:" + lab.split("=")[0])
         H = n2b(hs[5])
         add("b96.sign %s %s %s -" % (hx(OID_BAD[3]), hx(H), hx(n2b(0))), kind="expect", expect=BAD_OID)
         add("b96.sign %s %s %s -" % (hx(OID_HBELT), hx(H), hx(n2b(0))), kind="expect", expect=BAD_PRIVKEY)
@@ -450,6 +473,16 @@ class Gen:
         for d, Q, H, (lab, t) in must[: None if full else 3] + (rest if self.thorough else rest[: 3 if full else 1]):
             add("g12.sign %d %s %s %s" % (i, hx(H), hx(d.to_bytes(mo, "little")), hx(t)), kind="g12.sign", cv=cv, d=d, Q=Q, H=H, tape=t)
             self.count("g12.sign:tape=" + lab)
+        # constructed retry (GOST step 5): s = r d + k e = 0 for the first draw k  (docs/C16.fix-6.diff)
+        for H in ([hs[7], hs[0]] if full else [hs[7]]):
+            H = H.to_bytes(mo, "big")
+            k1, k2 = rng.randrange(1, q), rng.randrange(1, q)
+            r1 = cv.mul(k1, cv.G)[0] % q
+            if r1:
+                d = (-k1 * (int.from_bytes(H, "big") % q or 1) * pow(r1, -1, q)) % q
+                t = k1.to_bytes(mo, "little") + k2.to_bytes(mo, "little")
+                add("g12.sign %d %s %s %s" % (i, hx(H), hx(d.to_bytes(mo, "little")), hx(t)), kind="g12.sign", cv=cv, d=d, Q=cv.pub(d), H=H, tape=t)
+                self.count("g12.sign:constructed-s=0")
         H = hs[6].to_bytes(mo, "big")
         add("g12.sign %d %s %s -" % (i, hx(H), hx(bytes(mo))), kind="expect", expect=BAD_PRIVKEY)
         add("g12.sign %d %s %s -" % (i, hx(H), hx(q.to_bytes(mo, "little"))), kind="expect", expect=BAD_PRIVKEY)
@@ -466,6 +499,13 @@ class Gen:
         y0 = cv.f.sqrt(cv.B)
         add("dstu.comp %d %s" % (i, hx(cv.pt((0, y0)))), kind="dstu.comp", cv=cv, P=(0, y0))
         add("dstu.rec %d %s" % (i, hx(bytes(cv.no))), kind="dstu.rec0", cv=cv, want="0 " + hx(cv.pt((0, y0))))
+        if cv.A == 1 and cv.f.tr(cv.B) == 0:
+            # the points (1, y), y^2 + y = B: they have order n; the one with Tr(y) = 0 has no compressed form (docs/C16.fix-5.diff)
+            y1 = cv.f.htr(cv.B)
+            for yy in (y1, y1 ^ 1):
+                add("dstu.pval %d %s" % (i, hx(cv.pt((1, yy)))), kind="expect", expect=OK, what="PointVal((1, y))")
+                add("dstu.comp %d %s" % (i, hx(cv.pt((1, yy)))), kind="dstu.comp", cv=cv, P=(1, yy))
+                self.count("dstu.comp:x=1")
         add("dstu.pval %d %s" % (i, hx(cv.pt((0, y0)))), kind="expect", expect=BAD_POINT)
         add("dstu.pval %d %s" % (i, hx(bytes(2 * cv.no))), kind="expect", expect=BAD_POINT)
         add("dstu.comp %d %s" % (i, hx(b"\xff" * (2 * cv.no))), kind="expect", expect=BAD_POINT)
@@ -940,13 +980,20 @@ class Search:
                 want = ("304 - %d" % used) if d is None else "0 %s %d" % (hx(d.to_bytes(cv.mo, "little") + cv.pub(d)), used)
                 if o != want:
                     self.report("g12.kgen:" + m["lab"], op, o, want, "key generation: private key not sampled in {1..q-1} from this tape / public key != dP")
-            elif k == "g12.sign" and w[0] == "0" and m.get("tape") is not None:
+            elif k == "g12.sign" and m.get("tape") is not None:
                 cv = m["cv"]
-                kk, used, _ = nz_first(cv.q, m["tape"])
-                r = cv.mul(kk, cv.G)[0] % cv.q
-                s = (r * m["d"] + kk * self.g12_e(cv, m["H"])) % cv.q
-                want = "0 %s %d" % (hx(r.to_bytes(cv.mo, "big") + s.to_bytes(cv.mo, "big")), used)
-                if r and s and o != want:
+                tape, used, want = m["tape"], 0, None
+                while want is None:
+                    kk, u, tape = nz_first(cv.q, tape)
+                    used += u
+                    if kk is None:
+                        want = "304 - %d" % used
+                        break
+                    r = cv.mul(kk, cv.G)[0] % cv.q
+                    s = (r * m["d"] + kk * self.g12_e(cv, m["H"])) % cv.q
+                    if r and s:
+                        want = "0 %s %d" % (hx(r.to_bytes(cv.mo, "big") + s.to_bytes(cv.mo, "big")), used)
+                if o != want:
                     self.report("g12.sign:value", op, o, want, "signature differs from the value defined by GOST R 34.10 (e = H mod q, 0 -> 1)")
             elif k == "g12.vfy" and (m["genuine"] or self.limit((k, m["cv"].i), max(4, lim // 6))):
                 want = self.g12_verify(m["cv"], m["H"], m["sig"], m["pub"])
@@ -961,15 +1008,16 @@ class Search:
                 xw = le(tape[used - cv.no:used]) & ((1 << cv.m) - 1)
                 if not (cv.on(P) and P[0] == xw and cv.mul(cv.n, P) is None):
                     self.report("dstu.pgen", op, o, "a point of order n with x = the trimmed draw", "dstuPointGen returned an invalid point")
-            elif k == "dstu.comp" and w[0] == "0":
+            elif k == "dstu.comp":
                 cv, P = m["cv"], m["P"]
                 if P[0] == 0:
-                    want = bytes(cv.no)
+                    want = "0 " + hx(bytes(cv.no))
                 else:
                     t = cv.f.tr(cv.f.div(P[1], P[0]))
-                    want = cv.n2b((P[0] & ~1) | t)
-                if unh(w[1]) != want:
-                    self.report("dstu.comp", op, o, "0 " + hx(want), "compressed point != x with bit 0 replaced by Tr(y/x) (section 6.9)")
+                    # (1, y) with Tr(y) = 0 would get the code of (0, sqrt B): it must be refused
+                    want = "401 -" if (P[0] == 1 and t == 0) else "0 " + hx(cv.n2b((P[0] & ~1) | t))
+                if o != want:
+                    self.report("dstu.comp", op, o, want, "compressed point != x with bit 0 replaced by Tr(y/x) (section 6.9) / unrepresentable point accepted")
             elif k == "dstu.rec":
                 cv, P = m["cv"], m["P"]
                 want = "0 " + hx(cv.pt(P))
